@@ -4,6 +4,235 @@ Helper lemmas for C14 (f2 decompositions).
 import SfsModel.Model.Stat
 import SfsModel.Spec.Stat
 import SfsModel.Lemmas.Marginalize
+import SfsModel.Lemmas.View
+import Mathlib.Algebra.BigOperators.Group.Finset.Basic
+import Mathlib.Algebra.BigOperators.Ring.Finset
+import Mathlib.Algebra.BigOperators.Field
+import Mathlib.Algebra.CharZero.Defs
+import Mathlib.Tactic.Ring
 namespace Sfs
+open Finset
+
+/-! ### `freqSum` as a finite sum -/
+
+theorem sd_withIdx_map {β γ : Type} (l : List β) (d : β) (F : Nat × β → γ) :
+    (withIdx l).map F = (List.range l.length).map (fun i => F (i, l.getD i d)) := by
+  unfold withIdx
+  apply List.ext_getElem
+  · simp
+  · intro i h1 h2
+    have hi : i < l.length := by simpa using h2
+    simp [List.getD_eq_getElem?_getD, List.getElem?_eq_getElem hi]
+
+/-- per-axis frequencies of a multi-index -/
+def sd_fr {α : Type} [Div α] [NatCast α] (shape idx : List Nat) : List α :=
+  (List.zip idx shape).map (fun p => ((p.1 : Nat) : α) / ((p.2 - 1 : Nat) : α))
+
+theorem sd_freqs_eq {α : Type} [Div α] [NatCast α] (shape : List Nat) (f : Nat) (hf : f < size shape) :
+    (freqs shape f : List α) = sd_fr shape (unflat shape f) := by
+  unfold freqs sd_fr
+  rw [C19.indexFromFlat_eq shape f hf]
+
+theorem sd_freqSum_eq {α : Type} [Field α] (w : List α → α) (a : Arr α)
+    (hlen : a.data.length = size a.shape) :
+    freqSum w a = ∑ f ∈ range (size a.shape), a.data.getD f 0 * w (sd_fr a.shape (unflat a.shape f)) := by
+  unfold freqSum
+  rw [sumList_eq_sum, sd_withIdx_map a.data 0, list_range_sum, hlen]
+  apply Finset.sum_congr rfl
+  intro f hf
+  rw [sd_freqs_eq _ _ (mem_range.mp hf)]
+
+/-! ### normalisation -/
+
+theorem sd_freqSum_normalized {α : Type} [Field α] (w : List α → α) (a : Arr α)
+    (hlen : a.data.length = size a.shape) :
+    freqSum w (normalized a) =
+      (∑ f ∈ range (size a.shape), a.data.getD f 0 * w (sd_fr a.shape (unflat a.shape f))) / a.data.sum := by
+  rw [sd_freqSum_eq w (normalized a) (by simp only [normalized, normalize_length]; exact hlen)]
+  simp only [normalized]
+  rw [Finset.sum_div]
+  apply Finset.sum_congr rfl
+  intro f _
+  rw [normalize_getD, div_mul_eq_mul_div]
+
+/-! ### dropping positions commutes with the frequency map -/
+
+theorem sd_dropFrom_zip_map {β γ δ : Type} (A : List Nat) (F : β × γ → δ) :
+    ∀ (l : List β) (m : List γ) (n : Nat),
+      ((dropFrom A l n).zip (dropFrom A m n)).map F = dropFrom A ((l.zip m).map F) n
+  | [], m, n => by simp [dropFrom_nil]
+  | _ :: _, [], n => by simp [dropFrom_nil]
+  | x :: l, y :: m, n => by
+    have ih := sd_dropFrom_zip_map A F l m (n + 1)
+    simp only [List.zip_cons_cons, List.map_cons, dropFrom_cons]
+    by_cases h : n ∈ A
+    · simp only [if_pos h, ih]
+    · simp only [if_neg h, List.zip_cons_cons, List.map_cons, ih]
+
+theorem sd_fr_dropIdx {α : Type} [Div α] [NatCast α] (A : List Nat) (shape idx : List Nat) :
+    (sd_fr (dropIdx A shape) (dropIdx A idx) : List α) = dropIdx A (sd_fr shape idx) := by
+  unfold sd_fr dropIdx
+  exact sd_dropFrom_zip_map A _ idx shape 0
+
+theorem sd_dropFrom_inB (A : List Nat) : ∀ (s idx : List Nat) (n : Nat), InB s idx →
+    InB (dropFrom A s n) (dropFrom A idx n)
+  | [], [], n, _ => by simp [dropFrom_nil, InB]
+  | v :: s, i :: idx, n, h => by
+    have ih := sd_dropFrom_inB A s idx (n + 1) h.2
+    rw [dropFrom_cons, dropFrom_cons]
+    by_cases hn : n ∈ A
+    · rw [if_pos hn, if_pos hn]; exact ih
+    · rw [if_neg hn, if_neg hn]; exact ⟨h.1, ih⟩
+  | [], _ :: _, _, h => by simp [InB] at h
+  | _ :: _, [], _, h => by simp [InB] at h
+
+theorem sd_dropIdx_inB (A : List Nat) (s idx : List Nat) (h : InB s idx) :
+    InB (dropIdx A s) (dropIdx A idx) := sd_dropFrom_inB A s idx 0 h
+
+/-! ### the marginal pushes forward -/
+
+theorem sd_marg_push {α : Type} [Field α] (A : List Nat) (a b : Arr α) (hb : IsMarg A a b)
+    (G : List Nat → α) :
+    ∑ t ∈ range (size b.shape), b.data.getD t 0 * G (unflat b.shape t)
+      = ∑ f ∈ range (size a.shape), a.data.getD f 0 * G (dropIdx A (unflat a.shape f)) := by
+  obtain ⟨hs, hd⟩ := hb
+  rw [hs]
+  have h1 : ∀ t ∈ range (size (dropIdx A a.shape)),
+      b.data.getD t 0 * G (unflat (dropIdx A a.shape) t)
+        = ∑ f ∈ range (size a.shape),
+            if dropIdx A (unflat a.shape f) = unflat (dropIdx A a.shape) t
+              then a.data.getD f 0 * G (dropIdx A (unflat a.shape f)) else 0 := by
+    intro t ht
+    have ht' := mem_range.mp ht
+    rw [hd, List.getD_eq_getElem?_getD, List.getElem?_map, List.getElem?_range ht']
+    simp only [Option.map_some, Option.getD_some]
+    rw [Finset.sum_mul]
+    apply Finset.sum_congr rfl
+    intro f _
+    by_cases he : dropIdx A (unflat a.shape f) = unflat (dropIdx A a.shape) t
+    · rw [if_pos he, if_pos he, he]
+    · rw [if_neg he, if_neg he, zero_mul]
+  rw [Finset.sum_congr rfl h1]
+  exact sum_indicator_mass _ _ _ _ (fun f => flat (dropIdx A a.shape) (dropIdx A (unflat a.shape f)))
+    (fun f hf => flat_lt _ _ (sd_dropIdx_inB A _ _ (unflat_inB _ _ hf)))
+    (fun f hf t ht => unflat_eq_iff _ _ (sd_dropIdx_inB A _ _ (unflat_inB _ _ hf)) t ht)
+
+/-- `freqSum` of the normalised marginal, as a sum over the cells of the full spectrum. -/
+theorem sd_freqSum_marg {α : Type} [Field α] (w : List α → α) (A : List Nat) (a b : Arr α)
+    (hb : IsMarg A a b) (hsum : b.data.sum = a.data.sum) :
+    freqSum w (normalized b) =
+      (∑ f ∈ range (size a.shape), a.data.getD f 0 * w (dropIdx A (sd_fr a.shape (unflat a.shape f))))
+        / a.data.sum := by
+  rw [sd_freqSum_normalized w b hb.data_length, hsum,
+    sd_marg_push A a b hb (fun idx => w (sd_fr b.shape idx)), hb.1]
+  simp only [sd_fr_dropIdx]
+
+theorem sd_marginalize {α : Type} [Field α] (w : List α → α) (a : Arr α) (axes : List Nat)
+    (hlen : a.data.length = size a.shape) (hnd : axes.Nodup)
+    (hb : ∀ ax ∈ axes, ax < a.shape.length) (hl : axes.length < a.shape.length) :
+    ∃ b, marginalize a axes = .ok b ∧
+      freqSum w (normalized b) =
+        (∑ f ∈ range (size a.shape), a.data.getD f 0 * w (dropIdx axes (sd_fr a.shape (unflat a.shape f))))
+          / a.data.sum := by
+  have h := marginalize_isMarg a axes hlen hnd hb
+  exact ⟨_, marginalize_ok a axes hnd hb hl, sd_freqSum_marg w axes a _ h.1 h.2⟩
+
+/-! ### the pointwise identities -/
+
+theorem sd_fr_length {α : Type} [Div α] [NatCast α] (shape idx : List Nat) (h : idx.length = shape.length) :
+    (sd_fr shape idx : List α).length = shape.length := by
+  unfold sd_fr
+  simp [h]
+
+theorem sd_unflat_length : ∀ (s : List Nat) (f : Nat), (unflat s f).length = s.length
+  | [], _ => rfl
+  | _ :: s, f => by simp [unflat, sd_unflat_length s]
+
+abbrev sd_w2 {α : Type} [Field α] : List α → α := fun f => (nth f 0 - nth f 1) * (nth f 0 - nth f 1)
+abbrev sd_w3 {α : Type} [Field α] : List α → α := fun f => (nth f 0 - nth f 1) * (nth f 0 - nth f 2)
+abbrev sd_w4 {α : Type} [Field α] : List α → α := fun f => (nth f 0 - nth f 1) * (nth f 2 - nth f 3)
+
+theorem sd_point3 {α : Type} [Field α] (l : List α) (h : l.length = 3) :
+    sd_w2 (dropIdx [2] l) + sd_w2 (dropIdx [1] l) - sd_w2 (dropIdx [0] l) = 2 * sd_w3 l := by
+  match l, h with
+  | [p, q, r], _ =>
+    have e2 : dropIdx [2] [p, q, r] = [p, q] := rfl
+    have e1 : dropIdx [1] [p, q, r] = [p, r] := rfl
+    have e0 : dropIdx [0] [p, q, r] = [q, r] := rfl
+    rw [e2, e1, e0]
+    simp only [sd_w2, sd_w3, nth, List.getD_cons_zero, List.getD_cons_succ]
+    ring
+
+theorem sd_point4 {α : Type} [Field α] (l : List α) (h : l.length = 4) :
+    sd_w2 (dropIdx [1, 2] l) + sd_w2 (dropIdx [0, 3] l) - sd_w2 (dropIdx [1, 3] l) - sd_w2 (dropIdx [0, 2] l)
+      = 2 * sd_w4 l := by
+  match l, h with
+  | [p, q, r, s], _ =>
+    have e1 : dropIdx [1, 2] [p, q, r, s] = [p, s] := rfl
+    have e2 : dropIdx [0, 3] [p, q, r, s] = [q, r] := rfl
+    have e3 : dropIdx [1, 3] [p, q, r, s] = [p, r] := rfl
+    have e4 : dropIdx [0, 2] [p, q, r, s] = [q, s] := rfl
+    rw [e1, e2, e3, e4]
+    simp only [sd_w2, sd_w4, nth, List.getD_cons_zero, List.getD_cons_succ]
+    ring
+
+/-! ### the two decompositions -/
+
+theorem sd_two_ne_zero {α : Type} [Field α] [CharZero α] : (2 : α) ≠ 0 := by
+  simp
+
+theorem sd_f3_from_f2 {α : Type} [Field α] [CharZero α] (a : Arr α)
+    (hlen : a.data.length = size a.shape) (h3 : a.shape.length = 3) :
+    ∃ mAB mAC mBC, marginalize a [2] = .ok mAB ∧ marginalize a [1] = .ok mAC ∧ marginalize a [0] = .ok mBC ∧
+      statF3 (normalized a) =
+        (statF2 (normalized mAB) + statF2 (normalized mAC) - statF2 (normalized mBC)) / 2 := by
+  obtain ⟨mAB, hAB, eAB⟩ := sd_marginalize sd_w2 a [2] hlen (by simp) (by simp [h3]) (by simp [h3])
+  obtain ⟨mAC, hAC, eAC⟩ := sd_marginalize sd_w2 a [1] hlen (by simp) (by simp [h3]) (by simp [h3])
+  obtain ⟨mBC, hBC, eBC⟩ := sd_marginalize sd_w2 a [0] hlen (by simp) (by simp [h3]) (by simp [h3])
+  refine ⟨mAB, mAC, mBC, hAB, hAC, hBC, ?_⟩
+  have e3 := sd_freqSum_normalized sd_w3 a hlen
+  show freqSum sd_w3 (normalized a) = (freqSum sd_w2 (normalized mAB) + freqSum sd_w2 (normalized mAC)
+    - freqSum sd_w2 (normalized mBC)) / 2
+  rw [eAB, eAC, eBC, e3, ← add_div, ← sub_div, ← Finset.sum_add_distrib, ← Finset.sum_sub_distrib]
+  have hp : ∀ f ∈ range (size a.shape),
+      a.data.getD f 0 * sd_w2 (dropIdx [2] (sd_fr a.shape (unflat a.shape f)))
+        + a.data.getD f 0 * sd_w2 (dropIdx [1] (sd_fr a.shape (unflat a.shape f)))
+        - a.data.getD f 0 * sd_w2 (dropIdx [0] (sd_fr a.shape (unflat a.shape f)))
+      = 2 * (a.data.getD f 0 * sd_w3 (sd_fr a.shape (unflat a.shape f))) := by
+    intro f _
+    have := sd_point3 (sd_fr (α := α) a.shape (unflat a.shape f))
+      (by rw [sd_fr_length _ _ (sd_unflat_length _ _), h3])
+    rw [← mul_add, ← mul_sub, this]; ring
+  rw [Finset.sum_congr rfl hp, ← Finset.mul_sum, div_div, mul_comm _ (2 : α), ← div_div,
+    mul_div_cancel_left₀ _ sd_two_ne_zero]
+
+theorem sd_f4_from_f2 {α : Type} [Field α] [CharZero α] (a : Arr α)
+    (hlen : a.data.length = size a.shape) (h4 : a.shape.length = 4) :
+    ∃ mAD mBC mAC mBD, marginalize a [1, 2] = .ok mAD ∧ marginalize a [0, 3] = .ok mBC ∧
+      marginalize a [1, 3] = .ok mAC ∧ marginalize a [0, 2] = .ok mBD ∧
+      statF4 (normalized a) =
+        (statF2 (normalized mAD) + statF2 (normalized mBC) - statF2 (normalized mAC) - statF2 (normalized mBD)) / 2 := by
+  obtain ⟨mAD, hAD, eAD⟩ := sd_marginalize sd_w2 a [1, 2] hlen (by simp) (by simp [h4]) (by simp [h4])
+  obtain ⟨mBC, hBC, eBC⟩ := sd_marginalize sd_w2 a [0, 3] hlen (by simp) (by simp [h4]) (by simp [h4])
+  obtain ⟨mAC, hAC, eAC⟩ := sd_marginalize sd_w2 a [1, 3] hlen (by simp) (by simp [h4]) (by simp [h4])
+  obtain ⟨mBD, hBD, eBD⟩ := sd_marginalize sd_w2 a [0, 2] hlen (by simp) (by simp [h4]) (by simp [h4])
+  refine ⟨mAD, mBC, mAC, mBD, hAD, hBC, hAC, hBD, ?_⟩
+  have e4 := sd_freqSum_normalized sd_w4 a hlen
+  show freqSum sd_w4 (normalized a) = (freqSum sd_w2 (normalized mAD) + freqSum sd_w2 (normalized mBC)
+    - freqSum sd_w2 (normalized mAC) - freqSum sd_w2 (normalized mBD)) / 2
+  rw [eAD, eBC, eAC, eBD, e4, ← add_div, ← sub_div, ← sub_div, ← Finset.sum_add_distrib,
+    ← Finset.sum_sub_distrib, ← Finset.sum_sub_distrib]
+  have hp : ∀ f ∈ range (size a.shape),
+      a.data.getD f 0 * sd_w2 (dropIdx [1, 2] (sd_fr a.shape (unflat a.shape f)))
+        + a.data.getD f 0 * sd_w2 (dropIdx [0, 3] (sd_fr a.shape (unflat a.shape f)))
+        - a.data.getD f 0 * sd_w2 (dropIdx [1, 3] (sd_fr a.shape (unflat a.shape f)))
+        - a.data.getD f 0 * sd_w2 (dropIdx [0, 2] (sd_fr a.shape (unflat a.shape f)))
+      = 2 * (a.data.getD f 0 * sd_w4 (sd_fr a.shape (unflat a.shape f))) := by
+    intro f _
+    have := sd_point4 (sd_fr (α := α) a.shape (unflat a.shape f))
+      (by rw [sd_fr_length _ _ (sd_unflat_length _ _), h4])
+    rw [← mul_add, ← mul_sub, ← mul_sub, this]; ring
+  rw [Finset.sum_congr rfl hp, ← Finset.mul_sum, div_div, mul_comm _ (2 : α), ← div_div,
+    mul_div_cancel_left₀ _ sd_two_ne_zero]
 
 end Sfs
